@@ -9,6 +9,7 @@ package validator
 import (
 	"bytes"
 	"encoding/base64"
+	"encoding/json"
 	"fmt"
 	"os"
 	"strings"
@@ -68,7 +69,7 @@ func FuzzVerifC06Authorization(f *testing.F) {
 	if err != nil {
 		f.Fatalf("VF-INCONCLUSIVE cannot sign seed: %v", err)
 	}
-	presigned, err := vfSignWithRepo(sc, vfSigPlan{KeyID: "k2", Secret: "x", Presign: true, Expire: time.Hour}, vfC06Req{Method: "GET", Host: "example.com", Path: "/p", RawQuery: "a=1"}, time.Now())
+	presigned, err := vfSignWithRepo(sc, vfSigPlan{KeyID: "k2", Secret: "x", Presign: true, Expire: 50 * 365 * 24 * time.Hour}, vfC06Req{Method: "GET", Host: "example.com", Path: "/p", RawQuery: "a=1"}, time.Unix(now, 0)) // fixed time, valid for 50 years: the seed (and its signature) is the same in every run
 	if err != nil {
 		f.Fatalf("VF-INCONCLUSIVE cannot presign seed: %v", err)
 	}
@@ -84,6 +85,12 @@ func FuzzVerifC06Authorization(f *testing.F) {
 	f.Add(uint8(0), "Bearer "+tok.String(), "", "")
 	f.Add(uint8(0), "Bearer "+strings.Replace(tok.String(), ".", "..", 1), "", "")
 	f.Add(uint8(0), "bearer "+tok.String(), "", "")
+	tok3 := tok.clone()
+	tok3.Claims["exp"] = json.RawMessage(fmt.Sprintf("%d.5", now+60))
+	tok3.Claims["nbf"] = json.RawMessage("1.5e9")
+	f.Add(uint8(0), "Bearer "+tok3.String(), "", "")
+	tok3.Claims["exp"] = json.RawMessage("1.5e9") // 2017: expired
+	f.Add(uint8(0), "Bearer "+tok3.String(), "", "")
 	f.Add(uint8(1), "Bearer "+tok2.String(), "", "")
 	f.Add(uint8(1), "Bearer eyJhbGciOiJub25lIn0.e30.", "", "")
 	f.Add(uint8(2), sAuth, sDate, "a=1")
@@ -121,8 +128,14 @@ func FuzzVerifC06Authorization(f *testing.F) {
 			want = vfReject
 			// the only valid signatures in existence are the seeds': anything still carrying one is
 			// left to the rapid checks (which know what the signature covers)
-			if strings.Contains(auth, validSig) || (preSig != "" && strings.Contains(query, preSig)) {
+			// (compared after percent-decoding: "%32" is "2")
+			if strings.Contains(auth, validSig) {
 				want = vfEither
+			}
+			for _, p := range vfParseQuery(query) {
+				if preSig != "" && (strings.Contains(p.V, preSig) || strings.Contains(p.K, preSig)) {
+					want = vfEither
+				}
 			}
 		default:
 			want = vfBasicVerdict(&r, users)
